@@ -1,6 +1,7 @@
 package props
 
 import (
+	"encoding/binary"
 	"bytes"
 	"crypto/ecdsa"
 	"crypto/elliptic"
@@ -28,7 +29,7 @@ func init() {
 	core.Register(&core.Check{
 		ID:    "C06",
 		Level: "fault_enumeration",
-		Rule: "for every batch driver (InstallFonts with 1-2 inputs x subsets of pre-existing targets, a batch with a corrupt member, InstallTrueTypeFont, ImportCertificates with 1-2 inputs x pre-existing targets, CreateCheatSheetsUserFonts x pre-existing sheet): one fault-free run, then errno at every intercepted filesystem event (bound 1); bound 2 = a second errno at every later cleanup/rollback event (remove, rename, removeall, syncdir) of the faulted execution (quick: cleanup events only; thorough: every later event); " +
+		Rule: "for every batch driver (InstallFonts with 1-2 inputs x subsets of pre-existing targets, a two-member TrueType collection, a batch with a corrupt member, InstallTrueTypeFont, ImportCertificates with 1-2 inputs x pre-existing targets, CreateCheatSheetsUserFonts x pre-existing sheet): one fault-free run, then errno at every intercepted filesystem event (bound 1); bound 2 = a second errno at every later cleanup/rollback event (remove, rename, removeall, syncdir) of the faulted execution (quick: cleanup events only; thorough: every later event); " +
 			"non-trivial = a faulted execution whose first fault fired after the first staging/backup name had been created",
 		Assume:   []string{"gob files are compared by size and by pdfcpu's own reload, because gob encodes maps in random order"},
 		Run:      func(r *core.R) { core.Sharded(r, core.Workers()) },
@@ -70,6 +71,28 @@ func loadFontFixtures() {
 	})
 }
 
+// buildTTC wraps sfnt fonts into a version 1.0 TrueType collection (table offsets become absolute file offsets).
+func buildTTC(fonts ...[]byte) []byte {
+	pad := func(n int) int { return (n + 3) &^ 3 }
+	out := make([]byte, 12+4*len(fonts))
+	copy(out, "ttcf")
+	binary.BigEndian.PutUint32(out[4:], 0x00010000)
+	binary.BigEndian.PutUint32(out[8:], uint32(len(fonts)))
+	for i, f := range fonts {
+		base := pad(len(out))
+		out = append(out, make([]byte, base-len(out))...)
+		binary.BigEndian.PutUint32(out[12+4*i:], uint32(base))
+		member := append([]byte(nil), f...)
+		n := int(binary.BigEndian.Uint16(member[4:]))
+		for j := 0; j < n; j++ {
+			e := 12 + 16*j
+			binary.BigEndian.PutUint32(member[e+8:], binary.BigEndian.Uint32(member[e+8:])+uint32(base))
+		}
+		out = append(out, member...)
+	}
+	return append(out, make([]byte, pad(len(out))-len(out))...)
+}
+
 func makeCertPEM(cn string) []byte {
 	key, _ := ecdsa.GenerateKey(elliptic.P256(), rand.Reader)
 	tmpl := &x509.Certificate{SerialNumber: big.NewInt(int64(len(cn))), Subject: pkix.Name{CommonName: cn},
@@ -96,6 +119,7 @@ func c06drivers() []c06driver {
 			os.WriteFile(filepath.Join(dir, "a.ttf"), fontA, 0o644)
 			os.WriteFile(filepath.Join(dir, "b.ttf"), fontB, 0o644)
 			os.WriteFile(filepath.Join(dir, "bad.ttf"), fontA[:len(fontA)/3], 0o644)
+			os.WriteFile(filepath.Join(dir, "ab.ttc"), buildTTC(fontA, fontB), 0o644)
 			font.UserFontDir = filepath.Join(dir, "fonts")
 			for _, p := range pre {
 				// a genuinely installed older representation (valid gob), produced once and copied
@@ -169,6 +193,8 @@ func c06drivers() []c06driver {
 	return []c06driver{
 		{"InstallFonts[A]/fresh", fontSetup(), inst("a.ttf")},
 		{"InstallFonts[A]/A-exists", fontSetup("Roboto-Regular"), inst("a.ttf")},
+		{"InstallFonts[collection A+B]/fresh", fontSetup(), inst("ab.ttc")},
+		{"InstallFonts[collection A+B]/B-exists", fontSetup("RobotX-Regular"), inst("ab.ttc")},
 		{"InstallFonts[A]/B-exists", fontSetup("RobotX-Regular"), inst("a.ttf")},
 		{"InstallFonts[A,B]/fresh", fontSetup(), inst("a.ttf", "b.ttf")},
 		{"InstallFonts[A,B]/A-exists", fontSetup("Roboto-Regular"), inst("a.ttf", "b.ttf")},
